@@ -25,6 +25,8 @@ MIRIFLAGS = "-Zmiri-disable-isolation -Zmiri-disable-stacked-borrows -Zmiri-perm
 # Known generator defect (known_findings.json): fixed-length list with heap elements in an import
 # parameter lowered to memory; its elements are dropped before the import is called.
 SIG_FIXED_LIST_UAF = "rust-mem:use-after-free:import:fixed-list-with-heap-elements-lowered-to-memory"
+# ... and an export result containing such a list is not cleaned up by post-return (reported by the host's balance check)
+SIG_FIXED_LIST_LEAK = "rust-mem:leak:export:fixed-list-with-heap-elements-in-result:not-freed-by-post-return"
 
 TIERS = {
     # worlds, native value sets per profile, miri worlds, miri sets, valgrind worlds, big-list size
@@ -423,7 +425,10 @@ def run_pipeline(prop, mode, tier, seed, replay=None):
                     with open(log, errors="replace") as f:
                         txt = f.read()
                     nflh = ((res["data"] or {}).get("extra", {}).get("counters", {}) or {}).get("import_functions_with_fixed_list_of_heap_elements", 0)
+                    known_leak = any(v.get("signature") == SIG_FIXED_LIST_LEAK for v in (res["data"] or {}).get("violations", []))
                     for kind, fk, text in valgrind_findings(txt):
+                        if kind == "leak" and known_leak:
+                            continue  # the per-call balance check already attributed this leak
                         if nflh and kind in ("oob", "uninit-read") and "free'd" in text:
                             # read of a block that was freed before the import was called
                             rep.violation(SIG_FIXED_LIST_UAF, "[valgrind] %s\n%s" % (kind, text),
